@@ -294,6 +294,8 @@ class Verifier(InspectMixin, QuantMixin, LoopMixin, ExprMixin, CallMixin, StmtMi
             K = self.resolve_class(spec[6:])
             if hint:
                 self.hint_classobj[smt.simp(v).get_id()] = K
+            if K not in self.classobj_cands:
+                self.classobj_cands.append(K)
             return z3.And(Val.is_ref(v), Val.r(v) < 0, self.sub_term(Val.r(v), K), self.sub_chain(Val.r(v), K))
         exact = spec.startswith('=')
         K = self.resolve_class(spec[1:] if exact else spec)
